@@ -135,7 +135,8 @@ def run(ctx, cases_override=None):
         cid = l.split(" ", 1)[0]
         if cid not in out: continue
         o = out[cid]; st["oracle_checks"] += 1
-        if not o.endswith("| EQ") or " it=" not in o:
+        # (a configuration that throws must throw the same exception kind through both interfaces)
+        if not o.endswith("| EQ"):
             st["oracle_fail"] += 1; st["mismatches"] += 1
             fails.append(dict(kind="counterexample", case=l, impl=o, model="C interface and C++ run-time interface must agree bit for bit",
                               op="solve", size=len(l), theorem="C20: C handle API = C++ run-time interface (iterations, residual, solution bits), variant " + l.split()[2]))
